@@ -215,4 +215,78 @@ def Flushed (s : State) : List Op → Prop
   | [] => True
   | op :: ops => (needsFlush s op = true → s.rel = []) ∧ Flushed (step s op).1 ops
 
+/-! ### The walks as the code performs them (awaiter by awaiter)
+
+`stepEmit` / `stepDrop` above use the closed form of the loop `resume_chain_lk` (awaiter.h:98-107); these are the loops
+themselves.  `SignalProofs.stepEmit_eq_loop` / `stepDrop_eq_loop` prove them equal on every duplicate-free chain
+(which the invariant guarantees for every reachable state). -/
+
+/-- one iteration over awaiter `y` during a collector call with value `v`: a coroutine's handle is appended to the
+suspend point; a callback's `resume()` runs at once (signal.h:275-296): it reads the value, calls `fn`, and pushes itself
+onto the (new) chain or deletes itself -/
+def walkOne (v : Nat) (s : State) (y : Nat) : State :=
+  if s.isCb y then
+    if 0 < s.left y then
+      { s with got := upd s.got y (s.got y ++ [Out.val v]), left := upd s.left y (s.left y - 1), chain := y :: s.chain }
+    else
+      { s with got := upd s.got y (s.got y ++ [Out.val v, Out.free]), left := upd s.left y (s.left y - 1) }
+  else { s with rel := s.rel ++ [y] }
+
+def stepEmitLoop (s : State) (byRef : Bool) (v : Nat) : State × Res :=
+  if s.handles = 0 then (s, Res.bad)
+  else
+    (s.chain.foldl (walkOne v)
+      { s with cur := some (if byRef then Ptr.ext v else Ptr.owned),
+               stored := if byRef then s.stored else some v,
+               chain := [],
+               emitted := s.emitted ++ [v],
+               expect := fun l => if l ∈ s.chain then s.expect l ++ [Out.val v] else s.expect l },
+     Res.num (corosOf s).length)
+
+/-- one iteration of the walk run by `~state` (signal.h:47-50): the weak pointer is expired, so a callback deletes
+itself; a coroutine's handle goes into the destructor's suspend point -/
+def walkDead (s : State) (y : Nat) : State :=
+  if s.isCb y then { s with got := upd s.got y (s.got y ++ [Out.free]) }
+  else { s with rel := s.rel ++ [y] }
+
+def stepDropLoop (s : State) : State × Res :=
+  if s.handles = 0 then (s, Res.bad)
+  else if s.handles = 1 then
+    (s.chain.foldl walkDead
+      { s with handles := 0, cur := none, stored := none, chain := [],
+               expect := fun l => if l ∈ s.chain then s.expect l ++ [Out.canceled] else s.expect l },
+     Res.last true)
+  else ({ s with handles := s.handles - 1 }, Res.last false)
+
 end Cocls.Signal
+
+/-!
+### Publication discipline of `awaiter::subscribe` (awaiter.h:65-72)
+
+Micro-step view for one question only: does the subscribing thread touch the awaiter after the CAS that publishes it?
+Listeners here are the worst case for that question: one-shot (a `connect`ed callback that answers false, a coroutine
+that finishes after the value), i.e. the awaiter is destroyed by the thread that releases the chain.  The pinned code
+evaluated `assert(_next != this)` *after* the CAS (`Op.post`); the repaired code checks on the failed-CAS path only, where
+the awaiter is still private, so its schedules contain no `post`.
+-/
+namespace Cocls.Signal.Pub
+
+inductive Op where
+  | cas (l : Nat)       -- the publishing compare-exchange of listener `l` (its thread may be pre-empted right after it)
+  | post (l : Nat)      -- pinned code only: the trailing `assert(_next != this)` of the same call, evaluated later
+  | release             -- another thread: collector call / state destructor: exchange, walk, every awaiter's owner goes away
+  deriving DecidableEq, Repr
+
+structure State where
+  chain : List Nat := []
+  freed : List Nat := []
+  uaf : Bool := false        -- a destroyed awaiter was read
+
+def step (s : State) : Op → State
+  | Op.cas l => { s with chain := l :: s.chain }
+  | Op.post l => { s with uaf := s.uaf || s.freed.contains l }
+  | Op.release => { s with chain := [], freed := s.freed ++ s.chain }
+
+def run (ops : List Op) : State := ops.foldl step {}
+
+end Cocls.Signal.Pub
